@@ -61,7 +61,6 @@ def handle (j : Json) : R Json := do
   let r := match accept d with
     | .ok => "ok"
     | .invalid => "invalid"
-    | .internal => "internal"
   pure (Json.mkObj [("res", r)])
 
 end DriverRules
